@@ -44,8 +44,17 @@ fn vio(class: &str, what: String, case: &Case, detail: serde_json::Value) -> Vio
     Violation { class: class.into(), what, case: json!({"case": case, "par": case.gram.to_par()}), detail }
 }
 
-fn grammars(tier: Tier) -> Vec<Gram> {
-    let mut v = super::ll::ll_grammars(tier);
+fn grammars(tier: Tier, cheap: bool) -> Vec<Gram> {
+    // the per-grammar cost of C05/C07/C08 is small: their quick tier already uses the large space
+    let mut v = super::ll::ll_grammars(if cheap { Tier::Thorough } else { tier });
+    if cheap && tier == Tier::Thorough {
+        let mut more = enum_bnf_pre(&BnfSpace { max_nt: 3, max_t: 2, max_len: 3, max_alts: 3, max_size: 11 }, false, Pre::WellFormedLl);
+        more.retain(|g| g.prods.iter().any(|(_, a)| a.len() == 3));
+        v.extend(more);
+        let mut t3 = enum_bnf_pre(&BnfSpace { max_nt: 3, max_t: 3, max_len: 3, max_alts: 2, max_size: 10 }, false, Pre::WellFormedLl);
+        t3.retain(|g| g.terms.len() == 3 && g.nts.len() == 3);
+        v.extend(t3);
+    }
     // keep grammars the reference calls well-formed for LL, or EBNF (decided by parol's check)
     v.retain(|g| !g.is_bnf() || Bnf::of(g).well_formed_ll());
     v
@@ -776,7 +785,7 @@ pub fn run(id: &str, tier: Tier, replay: Option<&str>) -> i32 {
     }
     let ctx = Ctx::new(id, tier);
     let acc = Acc::default();
-    let grams = grammars(tier);
+    let grams = grammars(tier, id != "C06");
     acc.count("grammars_enumerated", grams.len() as u64);
     let (level, rule, extra);
     match id {
@@ -801,7 +810,7 @@ pub fn run(id: &str, tier: Tier, replay: Option<&str>) -> i32 {
                 }
             });
             level = "exploration";
-            rule = format!("every left-recursion-free, productive, reachable canonical BNF grammar of {:?} (as left-factored by the pipeline and, raw, fed directly to the public analysis functions) plus EBNF bodies; lookahead limits K in {:?}. Oracle: strong-LL(k) by definition (pairwise disjoint FIRST_k(alpha) (+)k FOLLOW_k(A)), minimal k by increasing k. Non-trivial = grammars needing k >= 2 somewhere or rejected at K.", super::ll::bnf_space(tier), ks);
+            rule = format!("the left-recursion-free, productive, reachable grammars among: {} (as left-factored by the pipeline and, raw, fed directly to the public analysis functions) plus EBNF bodies; lookahead limits K in {:?}. Oracle: strong-LL(k) by definition (pairwise disjoint FIRST_k(alpha) (+)k FOLLOW_k(A)), minimal k by increasing k. Non-trivial = grammars needing k >= 2 somewhere or rejected at K.", super::ll::spaces_text(Tier::Thorough), ks);
             extra = json!({});
         }
         "C06" => {
